@@ -1911,6 +1911,10 @@ class MapResult(ApplyResult):
         success, result = success_result
         if success:
             self._value[i * self._chunksize:(i + 1) * self._chunksize] = result
+            # the chunk is done: its worker no longer owns a part of this job
+            for j in range(i * self._chunksize,
+                           min((i + 1) * self._chunksize, self._length)):
+                self._worker_pid[j] = None
             self._number_left -= 1
             if self._number_left == 0:
                 if self._callback:
@@ -2001,6 +2005,7 @@ class IMapIterator:
 
     def _set(self, i, obj):
         with self._cond:
+            self._worker_pids.pop(i, None)
             if self._index == i:
                 self._items.append(obj)
                 self._index += 1
@@ -2051,6 +2056,7 @@ class IMapUnorderedIterator(IMapIterator):
 
     def _set(self, i, obj):
         with self._cond:
+            self._worker_pids.pop(i, None)
             self._items.append(obj)
             self._index += 1
             self._cond.notify()
